@@ -170,7 +170,10 @@ HdrEnd == 256 * KiB
 TableCap == 64 * KiB
 X0 == [fmt |-> "vhdx", ident |-> TRUE, regi |-> TRUE, rmeta |-> TRUE, rpad |-> 0, rpost |-> 0,
        rcount |-> -1, meta_off |-> 320 * KiB, msig |-> TRUE, mcount |-> -1, mpad |-> 0, mpost |-> 0,
-       mvds |-> TRUE, item_off |-> 64 * KiB, item_len |-> "8", size |-> "10G", total |-> -1]
+       mvds |-> TRUE, item_off |-> 64 * KiB, item_len |-> "8", size |-> "10G", total |-> -1,
+       \* the length the region table announces for the metadata region: the inspector does not use it (it always
+       \* captures the 64 KiB a table can occupy), so no verdict depends on it - but it is a length field a stream controls
+       meta_len |-> "1048576"]
 ItemLen(t) == CASE t = "8" -> 8 [] t = "0" -> 0 [] t = "4" -> 4 [] t = "16" -> 16 [] OTHER -> TableCap   \* clamped to 64 KiB
 XEnd(L) == L.meta_off + L.item_off + 8
 VhdxLayouts ==
@@ -237,7 +240,10 @@ NoFooter == [present |-> FALSE, pert |-> "none"]
 FooterPerts == {"none", "sig", "ver", "desc_sec", "desc_num", "gd_at_end", "m_size", "m_type",
                 "m_pad", "e_val", "e_size", "e_type", "e_pad", "m_val"}
 M0 == [fmt |-> "vmdk", sig |-> TRUE, ver |-> 1, desc_sec |-> "1", desc_num |-> "20",
-       sectors |-> "2048", lines |-> StdLines, footer |-> NoFooter, total |-> -1]
+       sectors |-> "2048", lines |-> StdLines, footer |-> NoFooter, total |-> -1,
+       \* what stands where the layout has nothing to say (sector padding, the data area): NUL bytes, or text without
+       \* a single NUL - the descriptor parser looks for the first NUL, so a stream controls how far it looks
+       fill |-> "nul"]
 Repl(q, i, x) == [q EXCEPT ![i] = x]
 VmdkLayouts ==
      {[M0 EXCEPT !.sectors = s, !.footer = f] :
@@ -341,10 +347,14 @@ Big == 3 * 1024 * KiB
 HostileLayouts ==
      {[M0 EXCEPT !.desc_num = dn, !.total = Big, !.footer = f, !.sectors = "2^55-1"] :
          dn \in {"2047", "2048", "2^55", "2^64-1"}, f \in {NoFooter, [present |-> TRUE, pert |-> "none"]}}
+\cup {[M0 EXCEPT !.desc_num = dn, !.total = Big, !.fill = "text", !.footer = f] :
+         dn \in {"1", "20", "2048"}, f \in {NoFooter, [present |-> TRUE, pert |-> "none"]}}
 \cup {[X0 EXCEPT !.item_len = il, !.mcount = mc, !.mpad = mp, !.total = Big, !.meta_off = mo] :
          il \in {"8", "65536", "65537", "2^32-1"}, mc \in {-1, 2047, 2048, 65535}, mp \in {0, 2046},
          mo \in {256 * KiB, 1024 * KiB}}
 \cup {[X0 EXCEPT !.rcount = rc, !.rpad = rp, !.total = Big] : rc \in {2047, 2048, 65535}, rp \in {0, 2046}}
+\cup {[X0 EXCEPT !.meta_len = ml, !.item_off = io, !.item_len = il, !.total = Big] :
+         ml \in {"0", "8", "65536", "2^32-1"}, io \in {64 * KiB, 64 * KiB + 8, 128 * KiB}, il \in {"8", "2^32-1"}}
 \cup {[fmt |-> "raw", kind |-> k, total |-> Big] : k \in {"text", "random", "zero"}}
 \cup {[Q0 EXCEPT !.total = Big], [fmt |-> "iso", sig |-> "CD001", dtype |-> 1, blocks |-> "2^32-1",
                                   bs |-> "2^16-1", total |-> Big],
